@@ -238,3 +238,21 @@ package core
 //@
 //@ func (*dialer).pipeConnected
 //@   ensures !called("Stop") && unchanged("call:Lock#1", d.redialer)
+
+// ---- round 5b: remaining uncovered core functions ----
+//@ func (*pipe).GetOption
+//@   ghost terr = result1 at call:GetOption#1
+//@   ghost tval = result0 at call:GetOption#1
+//@   before call:GetOption#1 assert arg0 == name
+//@   ensures terr != mangos.ErrBadOption ==> result1 == terr && result0 == tval
+//@   before call:GetOption#2 assert terr == mangos.ErrBadOption && arg0 == name
+//@   before call:GetOption#3 assert terr == mangos.ErrBadOption && arg0 == name && p.d == nil
+//@
+//@ func (*pipeList).CloseAll
+//@   loop 1 complete
+//@   before go:close#1 assert held(l.lock)
+//@
+//@ func (*socket).OpenContext
+//@   ghost perr = result1 at call:OpenContext#1
+//@   ensures !isnil(perr) ==> isnil(result0) && result1 == perr
+//@   ensures isnil(perr) ==> isnil(result1) && !isnil(result0)
